@@ -406,10 +406,10 @@ class ExpressionScalar(Expression):
         return self.make(self._sympified_expression.__rtruediv__(self._extract_sympified(other)))
 
     def __floordiv__(self, other: Union['ExpressionScalar', Number, sympy.Expr]) -> 'ExpressionScalar':
-        return self.make(self._sympified_expression.__floordiv__(self._extract_sympified(other)))
+        return self.make(sympy.floor(self._sympified_expression / self._sympify(other)))
 
     def __rfloordiv__(self, other: Union['ExpressionScalar', Number, sympy.Expr]) -> 'ExpressionScalar':
-        return self.make(self._sympified_expression.__rfloordiv__(self._extract_sympified(other)))
+        return self.make(sympy.floor(self._sympify(other) / self._sympified_expression))
 
     def __neg__(self) -> 'ExpressionScalar':
         return self.make(self._sympified_expression.__neg__())
